@@ -488,7 +488,14 @@ class Sym:
         return Sym(Q(T.unary_atom("asin", self.rterm())))
 
     def log(self):
-        return Sym(Q(T.unary_atom("log", self.rterm())))
+        if self.is_real():
+            if self.re.is_const() and self.re.n.val < 0:
+                # principal branch of a negative constant (numpy: log(-1+0j) = i pi)
+                # (the float constant: angles within 1e-10 of a multiple of pi/24 are read back as exact multiples)
+                return Sym(Q(T.unary_atom("log", T.neg(self.re.n))), Q(T.const(T.PI_FLOAT)))
+            return Sym(Q(T.unary_atom("log", self.rterm())))
+        # complex argument: log|z| + i arg z
+        return Sym(abs(self).log().re, self.imag.arctan2(self.real).re)
 
     def angle(self):
         return self.imag.arctan2(self.real)
